@@ -516,6 +516,105 @@ func TestC19Commit(t *testing.T) {
 	})
 }
 
+// ---------------------------------------------------------------- three-way splits (merge points of >= 3 vote-nodes)
+
+// TestC19CommitSplit: commits over split trees (genSplitTree): 5-8 voters, precommits spread over the leaves of the main
+// fork, the side forks and H, so that the GHOST is typically the shared prefix of the main fork - a block no one voted
+// for, found by ghostFindMergePoint accumulating >= 3 vote-nodes that hang under one graph node - and the verdict
+// is judged for the generated order and five further permutations, both number widths. Same oracle as TestC19Commit.
+func TestC19CommitSplit(t *testing.T) {
+	defer kit.Flush()
+	rapid.Check(t, func(t *rapid.T) {
+		sp := genSplitTree(t)
+		tr := sp.tr
+		c := &c19Case{tr: tr}
+		nv := rapid.IntRange(5, 8).Draw(t, "voters")
+		unit := rapid.IntRange(0, 9).Draw(t, "unit") < 7
+		names := make([]string, nv)
+		for i := range names {
+			names[i] = fmt.Sprintf("id%d", i)
+		}
+		for _, id := range names {
+			w := uint64(1)
+			if !unit {
+				w = rapid.SampledFrom([]uint64{1, 1, 2}).Draw(t, "w")
+			}
+			c.entries = append(c.entries, c19Entry{id, w})
+		}
+		c.entries = rapid.Permutation(c.entries).Draw(t, "entryOrder")
+		ids, wm, _, _ := c19SpecVoters(c.entries)
+		c.ids = ids
+		for _, id := range ids {
+			c.w = append(c.w, wm[id])
+		}
+		for _, vb := range genSplitVotes(t, sp, c.w) {
+			c.pcs = append(c.pcs, c19PC{vb[0], vb[1]})
+		}
+		if rapid.IntRange(0, 14).Draw(t, "outsider") == 0 {
+			c.pcs = append(c.pcs, c19PC{-1, rapid.IntRange(0, tr.n()-1).Draw(t, "outsiderBlock")})
+		}
+		if len(c.pcs) > 1 {
+			c.pcs = rapid.Permutation(c.pcs).Draw(t, "order")
+		}
+		// target: the GHOST by the definitions (70%), the fork point H, or any block
+		c.target = rapid.IntRange(0, tr.n()-1).Draw(t, "target")
+		ghost := -1
+		probe := c19Spec(c, c.pcs)
+		voted := map[int]bool{}
+		if probe.base >= 0 && !probe.over {
+			d := newGDefs(tr, probe.base, c.w)
+			ph := newGPhase(len(c.w))
+			for _, p := range c.pcs {
+				if p.voter >= 0 {
+					ph.add(p.voter, p.block)
+					voted[p.block] = true
+				}
+			}
+			ghost, _ = d.ghost(ph)
+		}
+		switch k := rapid.IntRange(0, 9).Draw(t, "targetKind"); {
+		case k < 7 && ghost >= 0:
+			c.target = ghost
+		case k < 9:
+			c.target = sp.h
+		}
+		fits32 := tr.offset+8 < 1<<32
+		orders := [][]c19PC{c.pcs}
+		for i := 0; i < 5 && len(c.pcs) > 2; i++ {
+			orders = append(orders, rapid.Permutation(c.pcs).Draw(t, "furtherOrder"))
+		}
+		var v c19Verdict
+		for i, pcs := range orders {
+			var err error
+			v, err = c19Judge[uint64](c, pcs, fmt.Sprintf("uint64, order %d", i))
+			if err != nil {
+				t.Fatalf("%v", err)
+			}
+			if fits32 {
+				if _, err := c19Judge[uint32](c, pcs, fmt.Sprintf("uint32, order %d", i)); err != nil {
+					t.Fatalf("%v", err)
+				}
+			}
+		}
+		labels := []string{"shape:split"}
+		labels = append(labels, gSplitLabels(tr, probe.base, ghost, voted, func(a, b int) bool { return tr.label[a] < tr.label[b] })...)
+		add := func(cond bool, l string) {
+			if cond {
+				labels = append(labels, l)
+			}
+		}
+		add(v.judged && v.valid, "verdict:valid")
+		add(v.judged && !v.valid, "verdict:invalid")
+		add(v.valid && c.target != v.base, "valid:target-above-base")
+		add(ghost >= 0 && !voted[ghost], "split:ghost-is-unvoted-merge-point")
+		add(v.base < 0, "invalid:no-common-base")
+		add(v.distinct >= 3, "precommits-on->=3-blocks")
+		add(v.eqvs > 0 && !v.over, "equivocator-within-f")
+		add(v.over, "equivocating-weight-beyond-f")
+		kit.Case("split "+c.describe(c.pcs), len(c.ids) >= 3 && v.distinct >= 2, labels...)
+	})
+}
+
 // ---------------------------------------------------------------- regressions (shrunk inputs of the two defects found)
 
 func TestC19Regressions(t *testing.T) {
@@ -551,4 +650,35 @@ func TestC19Regressions(t *testing.T) {
 		t.Fatalf("%v", err)
 	}
 	kit.Case("regression repeated-id verdict", true, "regression")
+
+	// 4. three-way merge under one node (seeded slice-aliasing change in ghostFindMergePoint's sorted insertion):
+	//    A0 <- H1 <- H2; H2 <- P3 <- P4 <- {X5a, X5b}; H2 <- C3 <- C4 (hash C3 sorts before P3). 7 unit voters, threshold 5:
+	//    one on H2 (base), three on X5a, two on X5b, one on C4: only the shared prefix reaches the threshold, GHOST = P4.
+	tr3 := newGTree([]int{-1, 0, 1, 2, 3, 4, 4, 2, 7}, []string{"A0", "H1", "H2", "P3", "P4", "X5a", "X5b", "C3", "C4"}, 0)
+	ids7 := []string{"id0", "id1", "id2", "id3", "id4", "id5", "id6"}
+	var ent7 []c19Entry
+	for _, id := range ids7 {
+		ent7 = append(ent7, c19Entry{id, 1})
+	}
+	for _, target := range []int{4, 2} { // P4: valid; H2: invalid
+		c3 := &c19Case{tr: tr3, entries: ent7, ids: ids7, w: []uint64{1, 1, 1, 1, 1, 1, 1}, target: target}
+		for _, pcs := range [][]c19PC{
+			{{1, 5}, {2, 5}, {3, 5}, {6, 8}, {4, 6}, {5, 6}, {0, 2}}, // main-fork node, side-fork node, second main-fork node
+			{{0, 2}, {1, 5}, {6, 8}, {4, 6}, {2, 5}, {5, 6}, {3, 5}},
+			{{6, 8}, {4, 6}, {1, 5}, {0, 2}, {2, 5}, {3, 5}, {5, 6}},
+			{{4, 6}, {5, 6}, {1, 5}, {2, 5}, {3, 5}, {6, 8}, {0, 2}},
+		} {
+			v, err := c19Judge[uint64](c3, pcs, "uint64")
+			if err != nil {
+				t.Fatalf("%v", err)
+			}
+			if v.valid != (target == 4) {
+				t.Fatalf("ORACLE: three-way regression expects GHOST P4, got valid=%v for target %s (%s)", v.valid, tr3.label[target], v.why)
+			}
+			if _, err := c19Judge[uint32](c3, pcs, "uint32"); err != nil {
+				t.Fatalf("%v", err)
+			}
+		}
+		kit.Case("regression three-way merge target "+tr3.label[target], true, "regression")
+	}
 }
